@@ -9,6 +9,7 @@ import kbu_rules
 import kt
 import fr
 import ic
+import ug
 
 
 class Ctx:
@@ -83,7 +84,24 @@ def fam_ic(ctx, o):
     ic.run(ctx.facts, o)
 
 
+def fam_ug(ctx, o):
+    ug.run_ug(ctx.facts, o)
+
+
+def fam_ab(ctx, o):
+    ug.run_ab(ctx.facts, o)
+
+
+def fam_u8(ctx, o):
+    ug.run_u8(ctx.facts, o)
+
+
+def fam_px(ctx, o):
+    ug.run_px(ctx.facts, o)
+
+
 FAMILIES = {
+    'ug': fam_ug, 'ab': fam_ab, 'u8': fam_u8, 'px': fam_px,
     'kt': fam_kt, 'kv': fam_kv, 'fr': fam_fr, 'fr_enc': fam_fr_enc, 'ic': fam_ic,
     'ed': fam_ed, 'dg': fam_dg, 'ea': fam_ea, 'kbu_bufs': fam_kbu_bufs, 'kbu_ticks': fam_kbu_ticks,
     'ci': fam_ci,
@@ -91,6 +109,12 @@ FAMILIES = {
 
 # property -> list of (family, [rule ids]) ; rule id prefix match on Inst.rule
 PROPS = {
+    'C01': {
+        'families': [('ed', ['ED', 'AL', 'EP', 'FL', 'WR', 'WB']), ('fr', ['SW', 'FR-F4']), ('ug', ['UG']), ('ab', ['AB']),
+                     ('u8', ['U8']), ('px', ['PX'])],
+        'floors': {'ED': 60, 'AL': 3, 'EP': 3, 'SW': 2, 'UG': 12, 'AB': 4, 'U8': 20, 'PX': 3},
+        'title': 'Decoding and re-encoding never panic, hang or fail on arbitrary bytes',
+    },
     'C02': {
         'families': [('kt', ['KT']), ('fr_enc', ['FR-F5']), ('fr', ['FR-F2'])],
         'floors': {'KT-K1': 33, 'KT-K2': 30, 'KT-K3': 30, 'KT-K4': 20, 'FR-F5': 10},
@@ -127,7 +151,7 @@ PROPS = {
         'title': 'Specialised decoders agree with the full decoder',
     },
     'C09': {
-        'families': [('ed', ['ED', 'AL', 'EP', 'FL', 'WR'])],
+        'families': [('ed', ['ED', 'AL', 'EP', 'FL', 'WR', 'WB'])],
         'floors': {'ED': 60, 'WR': 40, 'FL': 2, 'AL': 3, 'EP': 3},
         'title': 'I/O faults are surfaced, never swallowed or turned into partial results',
     },
